@@ -4,7 +4,9 @@ Uninterpreted symbols (only congruence and the listed size facts are known of th
   DH(kem, sk, pk)            4.1: the Diffie-Hellman function of the group of KEM `kem`; the private key is designated by
                              the serialization of ITS public key (sk = SerializePublicKey(pk(skX))), pk by
                              SerializePublicKey(pkY), so both arguments are byte strings
-  dh_invalid(kem, sk, pk)    7.1.4: the DH result is the point at infinity / the all-zero value (the operation must abort)
+  dh_invalid(kem, pk)        7.1.4: DH(sk, pk) is the point at infinity / the all-zero value, so the operation must abort.
+                             For a well-formed private key (C05: NIST scalar in [1, n-1], X25519/X448 clamped scalar) this
+                             depends on pk only (pk of order dividing the cofactor), which is why sk is not an argument
   pk_ok(kem, enc)            7.1.1 DeserializePublicKey(enc) succeeds, validation of 7.1.4 included; known of it: enc has
                              Npk bytes and, for the NIST groups, is the UNCOMPRESSED SEC1 string (first octet 0x04)
   pk_canon(kem, enc)         SerializePublicKey(DeserializePublicKey(enc))
@@ -20,7 +22,9 @@ SIG = {
     'DH': {'sort': 'bytes', 'uf': True},
     'dh_invalid': {'sort': 'bool', 'uf': True},
     'pk_ok': {'sort': 'bool', 'uf': True,
-              'facts': ['result ==> len(enc) == kem_npk(kem)', '(result and kem < 0x0020) ==> nth(enc, 0) == 4']},
+              # result ==> len(enc) == Npk;  (result and kem is a NIST group) ==> enc[0] == 4      (written without forks)
+              'facts': ['ite(result, len(enc), kem_npk(kem)) == kem_npk(kem)',
+                        'ite(result, ite(kem < 0x0020, nth(enc, 0), 4), 4) == 4']},
     'pk_canon': {'sort': 'bytes', 'uf': True},
     'aead_ct': {'sort': 'bytes', 'uf': True, 'facts': ['len(result) == len(pt)']},
     'aead_tag': {'sort': 'bytes', 'uf': True, 'facts': ['len(result) == 16']},
@@ -39,7 +43,7 @@ def DH(kem, sk, pk):
     pass
 
 
-def dh_invalid(kem, sk, pk):
+def dh_invalid(kem, pk):
     pass
 
 
